@@ -6,7 +6,7 @@
    Immutability / aliasing (write flags, shared memory, receiver unchanged in memory) is not a Gallina notion:
    it is asserted by the correspondence harness on every call (validated, not proved); what IS proved here is
    that no operation of the model changes or removes an existing value (C09_pool_only_grows). *)
-From Coq Require Import ZArith Reals List Bool.
+From Coq Require Import ZArith Reals List Bool Lia.
 From PW Require Import Num NumR Vec NpList Result.
 From PW.model Require Import M_polyline_base M_polyline_spec M_polyline_ops.
 From PW.proofs Require Import P_polyline_insert P_polyline_ops.
@@ -20,10 +20,6 @@ Theorem C09_edges_spec : forall n closed k,
 Proof. exact edges_nth. Qed.
 
 (* ---- every operation refines the list specification, for all polylines and all arguments ------------ *)
-Theorem C09_constructor_refines_spec : forall (v : list (vec3 R)) c, c_new v c = s_new v c.
-Proof. exact new_refines. Qed.
-Theorem C09_flipped_refines_spec : forall p : polyline R, c_flipped p = s_flipped p.
-Proof. exact flipped_refines. Qed.
 Theorem C09_rolled_refines_spec : forall (p : polyline R) (k : Z), c_rolled p k = s_rolled p k.
 Proof. exact rolled_refines. Qed.
 Theorem C09_sliced_at_indices_refines_spec : forall (p : polyline R) s t,
@@ -31,12 +27,13 @@ Theorem C09_sliced_at_indices_refines_spec : forall (p : polyline R) s t,
 Proof. exact sliced_refines. Qed.
 Theorem C09_sectioned_refines_spec : forall (p : polyline R) bps, c_sectioned p bps = s_sectioned p bps.
 Proof. exact sectioned_refines. Qed.
-Theorem C09_join_refines_spec : forall (ps : list (polyline R)) c, c_join ps c = s_join ps c.
-Proof. exact join_refines. Qed.
 (* with_insertions (stable argsort, scatter of positions, searchsorted side="right", np.insert's fill of the new array):
    the new vertices and BOTH index maps equal the stable-insertion specification and its counting maps
    (original vertex i -> i + #{j : idx_j <= i}; inserted point j -> idx_j + #{k : idx_k < idx_j} + #{k < j : idx_k = idx_j}),
-   for every polyline, every number of points and every index vector (repeated / end / negative positions; errors by class) *)
+   for every polyline, every number of points and every index vector (repeated / end / negative positions -n..-1).
+   Out of range: an index above num_v, or a single index below -num_v, is IndexError in both (as in NumPy); an index
+   vector of two or more entries with one below -num_v is NOT modelled (NumPy wraps it twice or raises ValueError; both
+   sides carry the marker OtherError, histories exclude it through history_in_range, the correspondence does not judge it) *)
 Theorem C09_with_insertions_refines_spec : forall (p : polyline R) pts idx, c_insert p pts idx = s_insert p pts idx.
 Proof. exact insert_refines. Qed.
 Theorem C09_index_of_vertex_refines_spec : forall p pt, c_index_of ROps p pt = s_index_of ROps p pt.
@@ -95,32 +92,55 @@ Proof. exact spec_ins_map_points. Qed.
 
 (* ---- histories ------------------------------------------------------------------------------------------------ *)
 (* every finite sequence of the listed operations (all thirteen kinds), each applied to results of earlier ones, with
-   slice bounds within 0..num_v (roll amounts and insertion indices unrestricted), gives the same values and the
+   slice bounds within 0..num_v and no unmodelled insertion index vector (roll amounts unrestricted), gives the same values and the
    same errors in the code-shaped model and in the list specification *)
 Theorem C09_history_refines_spec : forall ops (pl : list (polyline R)),
   history_in_range (spec_impl ROps) pl ops ->
   run (code_impl ROps) pl ops = run (spec_impl ROps) pl ops.
 Proof. exact history_refines. Qed.
-(* an operation that raises leaves everything unchanged; no operation changes or removes an existing polyline *)
+(* the operations undefined for the polyline's kind raise ValueError / NotImplementedError *)
+Theorem C09_undefined_operations_raise : forall (p : polyline R) k bps s t v,
+  (pclosed p = false -> c_rolled p k = Raise ValueError) /\
+  (pclosed p = true -> c_sectioned p bps = Raise NotImplementedError /\ c_aligned ROps p v = Raise ValueError) /\
+  (pclosed p = false -> (t <= s)%nat -> c_sliced p s t = Raise ValueError) /\
+  (forall (ps : list (polyline R)) c, ps = [] \/ existsb pclosed ps = true -> c_join ps c = Raise ValueError).
+Proof. exact undefined_operations_raise. Qed.
+
+(* ---- definitional: pins the shape of the model; the content is carried by the traced ties / correspondence ----
+   The first three are closed by reflexivity (both sides are the same list function); the last two hold for ANY
+   implementation record because of the way `step` threads the pool.  They are no evidence for "no method changes the
+   polyline it is called on" / "errors leave everything unchanged" / "independent of the source array": those clauses
+   are validated by the harness only (byte snapshots of every existing polyline before/after every call, write flags,
+   np.shares_memory) on the sampled histories. *)
+Theorem C09_constructor_refines_spec : forall (v : list (vec3 R)) c, c_new v c = s_new v c.
+Proof. exact new_refines. Qed.
+Theorem C09_flipped_refines_spec : forall p : polyline R, c_flipped p = s_flipped p.
+Proof. exact flipped_refines. Qed.
+Theorem C09_join_refines_spec : forall (ps : list (polyline R)) c, c_join ps c = s_join ps c.
+Proof. exact join_refines. Qed.
 Theorem C09_errors_leave_unchanged : forall (pl : list (polyline R)) o e,
   snd (step (code_impl ROps) pl o) = ObRaise e -> fst (step (code_impl ROps) pl o) = pl.
 Proof. exact code_errors_leave_unchanged. Qed.
 Theorem C09_pool_only_grows : forall (pl : list (polyline R)) o,
   exists news, fst (step (code_impl ROps) pl o) = pl ++ news.
 Proof. exact code_pool_only_grows. Qed.
-(* the operations undefined for the polyline's kind raise ValueError / NotImplementedError *)
-Theorem C09_undefined_operations_raise : forall (p : polyline R) k bps s t v,
-  (pclosed p = false -> c_rolled p k = Raise ValueError) /\
-  (pclosed p = true -> c_sectioned p bps = Raise NotImplementedError /\ c_aligned ROps p v = Raise ValueError) /\
-  (pclosed p = false -> (t <= s)%nat -> c_sliced p s t = Raise ValueError) /\
-  c_join (F:=R) [] true = Raise ValueError /\ c_join [p; MkPolyline (pv p) true] false = Raise ValueError.
-Proof. exact undefined_operations_raise. Qed.
 
-(* non-vacuity: a history with in-range arguments exists *)
+(* ---- non-vacuity of the conditional theorems ----------------------------------------------------------------- *)
+(* a history with in-range arguments exists (it rolls, slices with wrap-around and inserts into results of earlier calls) *)
 Example C09_history_inhabited :
   history_in_range (spec_impl ROps) []
     [OpNew [V3 0 0 0; V3 1 0 0; V3 1 1 0]%R true; OpRolled 0 (-4); OpSliced 1 2 1; OpInsert 2 [V3 5 5 5]%R [2%Z]; OpLen 3].
 Proof. cbn. repeat split; reflexivity. Qed.
+(* sliced (bounds in range, wrap-around), rolled (index in range), apex / bounding box / insertion maps on concrete values *)
+Example C09_conditional_theorems_inhabited :
+  let p := MkPolyline [V3 0 0 0; V3 1 0 0; V3 1 1 0]%R true in
+  ((2 <= length (pv p))%nat /\ (1 <= length (pv p))%nat /\ s_sliced p 2 1 = Ok (MkPolyline [V3 1 1 0; V3 0 0 0]%R false)) /\
+  (1 < length (pv p))%nat /\
+  (exists x, s_apex ROps (MkPolyline [V3 1 2 3]%R false) (V3 1 0 0)%R = Ok x) /\
+  (exists o sz, s_bbox ROps p = Some (o, sz) /\ In (V3 1 0 0)%R (pv p)) /\
+  (length [1; 1]%nat = length [V3 5 5 5; V3 6 6 6]%R /\ nth_error (pv p) 1 = Some (V3 1 0 0)%R /\
+   nth_error [1; 1]%nat 1 = Some 1%nat /\ nth_error [V3 5 5 5; V3 6 6 6]%R 1 = Some (V3 6 6 6)%R /\ (1 <= length (pv p))%nat).
+Proof. cbn. repeat split; try reflexivity; try lia; try (eexists; reflexivity); try (do 2 eexists; split; [reflexivity|right; left; reflexivity]). Qed.
 
 Definition C09_all := (C09_edges_spec, C09_constructor_refines_spec, C09_flipped_refines_spec, C09_rolled_refines_spec,
   C09_sliced_at_indices_refines_spec, C09_sectioned_refines_spec, C09_join_refines_spec,
